@@ -114,8 +114,8 @@ class CoopRLock:
             self.depth += 1
             self.evented.append(False)
             return True
-        caller = _caller_names(4)
-        modelled = any(n in ("commit", "initialize_table") for n in caller[:3])
+        caller = _frames(2, 2)           # the function executing `with self._lock:`
+        modelled = bool(caller) and caller[0][0] == "metadata_manager.py" and caller[0][1] in ("commit", "initialize_table")
         while True:
             if modelled or self.owner is not None:
                 self.env.sched.gate("tlock", handle=self.handle, blocked=lambda: self.owner is not None)
@@ -328,7 +328,9 @@ class Env:
         if why == "lockpoll" and not self.allow_spin:
             blocked = self._lockpoll_blocked(a)
         self.sched.gate("sleep", dur=d, why=why, blocked=blocked)
-        self.clock.advance(int(d * 1000)) if self.clock.mode == "coarse" and why != "lockpoll" else None
+        if self.clock.mode == "coarse" and why != "lockpoll":
+            self.clock.advance(max(1, int(d * 1000)))
+            self.sched.emit({"k": "Tick", "val": self.clock.rel(self.clock.peek_ms())})
         if why == "backoff":
             self.sched.emit({"k": "Backoff"})
 
